@@ -626,6 +626,11 @@ func TestVerifC11(t *testing.T) {
 	emit("corpus", base, c11Apply(base.h, []c11Fault{{1, 5, 9}}, false), 1)
 	emit("corpus", base, c11Apply(base.h, []c11Fault{{1, 4, 0}}, false), 1)
 	emit("corpus", base, c11Apply(base.h, []c11Fault{{1, 5, 9}}, true), 1)
+	// a removal fails (first / second remembered path), the same set is written again
+	again := c11Scenario{d0: base.d0, h: []c11Event{{Restart: true}, {Files: []c11File{a, x}}, {Files: []c11File{a2}}, {Files: []c11File{a2}}}}
+	emit("corpus", again, c11Apply(again.h, []c11Fault{{2, 0, 0}}, false), 1)
+	emit("corpus", again, c11Apply(again.h, []c11Fault{{2, 1, 0}}, false), 1)
+	emit("corpus", again, c11Apply(again.h, []c11Fault{{2, 1, 0}, {3, 0, 0}}, false), 2)
 
 	nScen := out.Count(36, 150)
 	perScen := out.Count(40, 150)
